@@ -1025,3 +1025,87 @@ mutant("rng2-seed-only-when-switched-on", "C19", "cspuz/generator/srandom.py", "
         drandom.seed(seed)""", """    if enabled and not _use_deterministic_prng:
         drandom.seed(0 if seed is None else seed)
     _use_deterministic_prng = enabled""", "RNG-2")
+
+# ---- round 6: rules added for the sixth seeding round -----------------------------------------------
+mutant("vid3-no-variables-shortcut", "C01", SOLVER, """        backend_type = _get_backend(backend)
+        csp_solver = backend_type(self.variables)  # type: ignore
+        csp_solver.add_constraint(self.constraints)
+        return csp_solver.solve()
+""", """        if len(self.variables) == 0:
+            return True
+        backend_type = _get_backend(backend)
+        csp_solver = backend_type(self.variables)  # type: ignore
+        csp_solver.add_constraint(self.constraints)
+        return csp_solver.solve()
+""", "VID-3")
+variant("vid3-empty-program-shortcut", "C01", SOLVER, """        backend_type = _get_backend(backend)
+        csp_solver = backend_type(self.variables)  # type: ignore
+        csp_solver.add_constraint(self.constraints)
+        return csp_solver.solve()
+""", """        if not self.constraints:
+            return True
+        backend_type = _get_backend(backend)
+        csp_solver = backend_type(self.variables)  # type: ignore
+        csp_solver.add_constraint(self.constraints)
+        return csp_solver.solve()
+""", "an empty program is satisfiable")
+mutant("agg-fold-row-count-shortcut", "C12", ARRAY, """        return _elementwise(Op.XOR, self.shape, [other, self])
+
+    def fold_or(self) -> BoolExpr:
+        return BoolExpr(Op.OR, self.data)
+
+    def fold_and(self) -> BoolExpr:
+        return BoolExpr(Op.AND, self.data)
+
+    @overload
+    def __getitem__(self, key: Tuple[int, int]) -> BoolExpr: ...""", """        return _elementwise(Op.XOR, self.shape, [other, self])
+
+    def fold_or(self) -> BoolExpr:
+        if len(self) == 1 and self.data:
+            return self.data[0]
+        return BoolExpr(Op.OR, self.data)
+
+    def fold_and(self) -> BoolExpr:
+        return BoolExpr(Op.AND, self.data)
+
+    @overload
+    def __getitem__(self, key: Tuple[int, int]) -> BoolExpr: ...""", "AGG")
+variant("agg-fold-single-element-shortcut", "C12", ARRAY, """        return _elementwise(Op.XOR, self.shape, [other, self])
+
+    def fold_or(self) -> BoolExpr:
+        return BoolExpr(Op.OR, self.data)
+
+    def fold_and(self) -> BoolExpr:
+        return BoolExpr(Op.AND, self.data)
+
+    @overload
+    def __getitem__(self, key: Tuple[int, int]) -> BoolExpr: ...""", """        return _elementwise(Op.XOR, self.shape, [other, self])
+
+    def fold_or(self) -> BoolExpr:
+        if len(self.data) == 1:
+            return self.data[0]
+        return BoolExpr(Op.OR, self.data)
+
+    def fold_and(self) -> BoolExpr:
+        return BoolExpr(Op.AND, self.data)
+
+    @overload
+    def __getitem__(self, key: Tuple[int, int]) -> BoolExpr: ...""", "the OR of one element is that element")
+mutant("groups-grid-form-transposed", "C07", GRAPH, "solver, _grid_graph(height, width), group_size=group_size_converted", "solver, _grid_graph(width, height), group_size=group_size_converted", "ENC-S")
+mutant("seg-connectivity-three-directions", "C18", GSEG, "        visit(y, x - 1)\n", "", "SEG-C")
+mutant("seg-connectivity-degree-shortcut", "C18", GSEG, """    if block[0] == excluded:
+        visit(*block[1])""", """    if excluded is not None and sum(p in block_set for p in ((excluded[0] - 1, excluded[1]), (excluded[0] + 1, excluded[1]), (excluded[0], excluded[1] - 1), (excluded[0], excluded[1] + 1))) != 2:
+        return True
+    if block[0] == excluded:
+        visit(*block[1])""", "SEG-C")
+mutant("pzx-simpleloop-parity-flipped", "C11", "cspuz/puzzle/simpleloop.py", "solver.ensure(is_passed[py, px] == (n_pass % 2 == 1))", "solver.ensure(is_passed[py, px] == (n_pass % 2 == 0))", "PZ-X")
+mutant("pzx-magnets-domino-half", "C11", "cspuz/puzzle/magnets.py", "solver.ensure((plus[y, x] == minus[y, x + 1]) & (minus[y, x] == plus[y, x + 1]))", "solver.ensure(plus[y, x] == minus[y, x + 1])", "PZ-X")
+mutant("pzx-nanro-count-off", "C11", "cspuz/puzzle/nanro.py", "solver.ensure((answer[y][x] == 0) | (answer[y][x] == nonempty))", "solver.ensure((answer[y][x] == 0) | (answer[y][x] >= nonempty))", "PZ-X")
+mutant("pzx-nurimaze-path-degree", "C11", "cspuz/puzzle/nurimaze.py", "solver.ensure(path[y, x].then(count_true(path.four_neighbors(y, x)) == 2))", "solver.ensure(path[y, x].then(count_true(path.four_neighbors(y, x)) >= 1))", "PZ-X")
+mutant("pzx-slalom-order-not-stepped", "C11", "cspuz/puzzle/slalom.py", ").then((gate_ord[y2, x2] == gate_ord[y, x] - 1))", ").then((gate_ord[y2, x2] == gate_ord[y, x]))", "PZ-X")
+variant("pzx-slalom-order-strictly-increasing", "C11", "cspuz/puzzle/slalom.py", ").then((gate_ord[y2, x2] == gate_ord[y, x] - 1))", ").then((gate_ord[y2, x2] <= gate_ord[y, x] - 1))",
+        "with as many gates as order values, strictly increasing is the same as stepping by one (found when this edit was first listed as a mutant)")
+mutant("url-slalom-gate-end-by-width", "C16", "cspuz/puzzle/slalom.py", "                ends.append((y - 1, x, 2))\n            if y + l < height:", "                ends.append((y - 1, x, 2))\n            if y + l < width:", "URL-W", "the original defect")
+variant("url-slalom-gate-end-le", "C16", "cspuz/puzzle/slalom.py", "                ends.append((y - 1, x, 2))\n            if y + l < height:", "                ends.append((y - 1, x, 2))\n            if y + l <= height - 1:")
+mutant("url-nanro-border-order", "C16", "cspuz/puzzle/nanro.py", "            s.append(1 if block_id[y][x] != block_id[y + 1][x] else 0)\n    ret += convert_binary_seq(s)", "            s.append(1 if block_id[y][x] != block_id[y + 1][x] else 0)\n    ret = convert_binary_seq(s) + ret", "URL-W")
+mutant("url-nurimaze-mark-code", "C16", "cspuz/puzzle/nurimaze.py", "                v = mark[y][x] + 2", "                v = mark[y][x] + 1", "URL-W")
